@@ -44,30 +44,90 @@ def nrm(e, fn):
     if k == "discr": return "discr(%s)" % nrm(e[1], fn)
     return mir.show(e)
 
+def _inline_ok(F, caller, cp, g):
+    """loop-free local helpers are spliced into the comparator (compare_core(self, other), self.compare_pre(other), ...);
+    helpers with loops stay opaque atoms and are checked by the loop recognisers"""
+    if g is None or g.kind == "closure" or not cp.startswith("crate::") or g.d.get("impl_trait") or mir.has_loop(g) or len(g.blocks) >= 200: return False
+    # a helper that walks its arguments with iterator adaptors is a loop in disguise: it stays an atom for the loop recognisers
+    if any((mir.callee(t) or "").startswith("std::iter::Iterator::") or "as std::iter::Iterator>::" in (mir.callee(t) or "") for bi, t in g.calls()): return False
+    return True
+
+def ordering_valued(e):
+    """a symbolic expression whose value is an Ordering (so that tests on it can be evaluated through value())"""
+    if not isinstance(e, tuple): return False
+    if e[0] == "agg" and str(e[1]).startswith("std::cmp::Ordering::"): return True
+    if e[0] == "call":
+        c = str(e[1])
+        return is_cmp_callee(c) or c.endswith("Ordering::then_with") or c.endswith("Ordering::then") or c.endswith("Ordering::reverse")
+    return False
+
 class Model:
     """decision table of one loop-free function returning Ordering (or bool / Option<Ordering>)"""
     def __init__(self, F, fn):
-        self.F = F; self.fn = fn
+        self.F = F
+        fn = mir.inlined(F, fn, depth=3, ok=_inline_ok)
+        self.fn = fn
         if mir.has_loop(fn): raise Unrecognised("loop in %s" % fn.path)
         self.rows = []
-        for p in mir.enum_paths(fn, limit=4000):
-            if fn.blocks[p[-1]]["t"][0] != "ret": continue
-            sp = mir.SymPath(fn, p)
+        try:
+            sps = mir.sym_paths(fn, limit=20000)
+        except mir.TooManyPaths:
+            raise Unrecognised("too many paths in %s" % fn.path)
+        for sp in sps:
             conds = []
             for d, (rel, vals), b in sp.conds:
-                conds.append(self.cond(d, rel, vals, b))
+                c = self.cond(d, rel, vals, b)
+                if c is not None: conds.append(c)
             self.rows.append((conds, sp.ret(), sp))
     def cond(self, d, rel, vals, b):
         fn = self.fn
         if d[0] == "discr":
             desc = mir.describe_discr(fn, b)
-            vmap = {v: n for v, n in desc[3]} if desc[0] == "discr" else {}
+            st = fn.blocks[b]["s"][-1] if fn.blocks[b]["s"] else None
+            vlist = st[2][3] if st and st[0] == "=" and st[2][0] == "discr" and len(st[2]) > 3 else (desc[3] if desc[0] == "discr" else [])
+            vmap = {v: n for v, n in vlist}
             names = tuple(sorted(vmap.get(v, str(v)) for v in vals))
             inner = d[1]
-            if inner[0] == "call" and is_cmp_callee(inner[1]):
+            if inner[0] == "agg" and str(inner[1]).startswith("std::cmp::Ordering::"): return None     # constant: feasibility already applied
+            if inner[0] == "call" and is_cmp_callee(inner[1]) and not (inner[2] and inner[2][0][0] == "agg"):
                 return ("atom", atom_key(inner, fn), rel, names, inner)
+            if ordering_valued(inner):
+                return ("ordval", "ordval@%d" % b, rel, names, inner)
             return ("discr", nrm(inner, fn), rel, names, tuple(sorted(vmap.values())))
+        # `if ord != Ordering::Equal { return ord }` and friends
+        if d[0] == "call" and isinstance(d[1], str) and (d[1].endswith("::ne") or d[1].endswith("::eq")) and len(d[2]) == 2:
+            a, c2 = d[2]
+            def ordconst(x):
+                if x[0] == "agg" and str(x[1]).startswith("std::cmp::Ordering::"): return str(x[1]).rsplit("::", 1)[-1]
+                if x[0] == "promoted":
+                    v = mir.promoted_value(self.F, {"k": "promoted", "of": x[1], "idx": x[2]})
+                    if v is not None and v[0] == "agg" and str(v[1]).startswith("std::cmp::Ordering::"): return str(v[1]).rsplit("::", 1)[-1]
+                return None
+            k = ordconst(c2); e = a
+            if k is None: k = ordconst(a); e = c2
+            if k is not None and ordering_valued(e):
+                truth = not ((rel == "eq" and 0 in vals) or (rel == "ne" and 0 not in vals))
+                is_eq = d[1].endswith("::eq")
+                holds_equal = truth if is_eq else not truth       # the tested value equals k
+                return ("ordval", "ordval@%d" % b, "eq" if holds_equal else "ne", (k,), e)
         raise Unrecognised("condition %s in %s" % (mir.show(d), fn.path))
+
+def _tuple_types(callee, n):
+    """element type names of `<(A, B, C) as Ord>::cmp`"""
+    c = str(callee)
+    i = c.find("<("); out = []
+    if i >= 0:
+        depth = 0; cur = ""
+        for ch in c[i + 2:]:
+            if ch in "<([": depth += 1
+            if ch in ">)]":
+                if depth == 0: break
+                depth -= 1
+            if ch == "," and depth == 0: out.append(cur.strip()); cur = ""
+            else: cur += ch
+        if cur.strip(): out.append(cur.strip())
+    out = [x.split("::")[-1] for x in out]
+    return out if len(out) == n else ["?"] * n
 
 def is_cmp_callee(c):
     c = str(c)
@@ -90,7 +150,7 @@ class Comparator:
             for conds, ret, sp in m.rows:
                 for c in conds:
                     if c[0] == "discr": self.discrs[c[1]] = c[4]
-                    else: self.atoms[c[1]] = str(c[4][1])
+                    elif c[0] == "atom": self.atoms[c[1]] = str(c[4][1])
         return self.models[fn.path]
     def flatten(self, m):
         """list of stages: (model, expr) pairs; a then_with chain in a single-row function becomes several stages"""
@@ -120,6 +180,16 @@ class Comparator:
             if c.endswith("Ordering::reverse"):
                 return {"Less": "Greater", "Greater": "Less", "Equal": "Equal"}[self.value(m, e[2][0], asg)]
             if is_cmp_callee(c):
+                a0, a1 = e[2][0], e[2][1]
+                if a0[0] == "agg" and a1[0] == "agg" and a0[1] == "tuple" and a1[1] == "tuple" and len(a0[2]) == len(a1[2]):
+                    # (a, b, c).cmp(&(x, y, z)) is the lexicographic composition of the element comparisons
+                    full = m.fn.blocks[e[3]]["t"][1].get("full") if len(e) > 3 and isinstance(e[3], int) else c
+                    tys = _tuple_types(full or c, len(a0[2]))
+                    for (f0, x), (f1, y), ty in zip(a0[2], a1[2], tys):
+                        k = "Ord<%s>::cmp(%s,%s)" % (ty, nrm(x, m.fn), nrm(y, m.fn)); self.atoms[k] = "<%s as std::cmp::Ord>::cmp" % ty
+                        v = asg[k]
+                        if v != "Equal": return v
+                    return "Equal"
                 k = atom_key(e, m.fn); self.atoms[k] = c
                 return asg[k]
             if self.F.fn(c) is not None and self.F.fn(c).d.get("ret") == "std::cmp::Ordering":
@@ -133,7 +203,7 @@ class Comparator:
             ok = True
             for c in conds:
                 key = c[1]
-                v = asg[key]
+                v = self.value(m, c[4], asg) if c[0] == "ordval" else asg[key]
                 inset = v in c[3]
                 if (c[2] == "eq") != inset: ok = False; break
             if ok: hits.append(ret)
